@@ -177,6 +177,25 @@ mut("net_writer_first_member", "pymtl3/dsl/ComponentLevel3.py",
     "            if v in writer_prop or isinstance( v, Const ):\n              if has_writer: continue", ["C08", "C09"])
 
 
+V1 = "pymtl3/passes/backends/verilog/translation/behavioral/VBehavioralTranslatorL1.py"
+mut("tr_signext_lastbit_off", V1, "    last_bit = current_nbits - 1\n", "    last_bit = current_nbits - 1 if current_nbits != 3 else 1\n", ["C03", "C12"])
+mut("tr_slice_upper_off", V1, "        upper = str( int( node.upper._value - 1 ) )", "        upper = str( int( node.upper._value - 1 ) if node.upper._value != 5 else 5 )", ["C03", "C12"])
+mut("tr_truncate_drop_cast", V1, "    if isinstance(dtype, rdt.Vector) and dtype.get_length() > nbits:\n      return f\"{nbits}'({value})\"",
+    "    if isinstance(dtype, rdt.Vector) and dtype.get_length() > nbits and nbits != 4:\n      return f\"{nbits}'({value})\"", ["C03", "C12"])
+mut("tr_assign_blocking_in_ff", V1, "    assignment_op = '<=' if not node.blocking else '='", "    assignment_op = '='", ["C03", "C12"])
+mut("tr_zeroext_pad_one_less", V1, "    padded_nbits = target_nbits - current_nbits\n    if padded_nbits == 0:\n      return value\n    else:",
+    "    padded_nbits = target_nbits - current_nbits\n    if padded_nbits == 7: padded_nbits = 6\n    if padded_nbits == 0:\n      return value\n    else:", ["C03", "C12"])
+mut("tr_struct_field_order_reversed", "pymtl3/passes/backends/verilog/translation/structural/VStructuralTranslatorL2.py",
+    "    for id_, _dtype in dtype.get_all_properties().items():\n\n      if isinstance( _dtype, rdt.Vector ):",
+    "    for id_, _dtype in reversed(list(dtype.get_all_properties().items())):\n\n      if isinstance( _dtype, rdt.Vector ):", ["C03"])
+mut("tr_revert_reduce_fix", V1, "      value = f\"( {value} )\"\n    op = reduce_ops[ op_t ]", "      pass\n    op = reduce_ops[ op_t ]", ["C03", "C12"])
+mut("name_hash_first_param_only", "pymtl3/passes/rtlir/util/utility.py",
+    "  for arg_name, arg_value in comp_params:\n    assert arg_name != ''\n    comp_name += '__' + arg_name + '_' + get_string(arg_value)",
+    "  for arg_name, arg_value in comp_params[:1]:\n    assert arg_name != ''\n    comp_name += '__' + arg_name + '_' + get_string(arg_value)", ["C13", "C03"])
+mut("upblk_order_from_set", "pymtl3/passes/rtlir/util/utility.py",
+    "  return [ x for x in m.get_update_block_order() if x in upblks ]", "  return list( upblks )", ["C13"])
+
+
 def load_extra():
   p = os.path.join(VERIF, "tools", "mutants_extra.json")
   if os.path.exists(p):
